@@ -31,15 +31,28 @@ CODE = {v: k for k, v in ST.items()}
 # =============================================================================================== L1: group histories
 
 class Injected(RuntimeError):
-    """an injected failure that is not a ValueError"""
+    """an injected failure of a class the RPC methods do not catch"""
 
 
 class InjectedValueError(ValueError):
-    """an injected failure that is a ValueError (what FastCGIProcessGroup raises when its socket cannot be created)"""
+    """an injected ValueError (what FastCGIProcessGroup raises when its socket cannot be created)"""
+
+
+class InjectedNotFound(FileNotFoundError):
+    """an injected OSError subclass (a child log directory that does not exist, ...)"""
+
+
+FLAVOR_CLASS = {'RuntimeError': Injected, 'ValueError': InjectedValueError, 'FileNotFoundError': InjectedNotFound}
+FLAVORS = sorted(FLAVOR_CLASS)
+
+
+def mro_names(flavor):
+    """the class of the injected exception with its bases, as the model's handler matching wants it"""
+    return '/'.join(c.__name__ for c in FLAVOR_CLASS[flavor or 'RuntimeError'].__mro__ if c is not object)
 
 
 def _raise(cfg, what):
-    raise (InjectedValueError if cfg.flavor == 'ValueError' else Injected)(what)
+    raise FLAVOR_CLASS[cfg.flavor](what)
 
 
 def _faulty(cls):
@@ -113,7 +126,7 @@ class GroupWorld:
 
     def op(self, op):
         """op = ['add', name, fault, via, flavor] | ['remove', name, unstopped, fault, via, flavor] | ['sockdir', 0|1]
-        (flavor: the class of the injected exception, 'ValueError' or 'RuntimeError'; optional)
+        (flavor: the class of the injected exception, one of FLAVORS; optional)
         returns the result text: true | false | fault:<code> | raised:<what> | badname"""
         from supervisor.xmlrpc import RPCError, Faults
         if op[0] == 'sockdir':
@@ -152,7 +165,7 @@ class GroupWorld:
             if e.code == Faults.BAD_NAME:
                 return 'badname'
             return 'fault:%d' % e.code
-        except (Injected, InjectedValueError) as e:
+        except (Injected, InjectedValueError, InjectedNotFound) as e:
             return 'raised:' + str(e)
         except KeyError:
             return 'raised:KeyError'
@@ -220,13 +233,13 @@ def group_history(ctx, hist, tag=''):
                 if env_missing and fault is None:
                     fault, flavor = 'make_group', 'ValueError'       # the real FastCGIProcessGroup raises ValueError
                 if rpc:
-                    ops.append('rpcadd %s %s %s' % (name, fault or '-', flavor if fault else '-'))
+                    ops.append('rpcadd %s %s %s' % (name, fault or '-', mro_names(flavor) if fault else '-'))
                 else:
                     ops.append('add %s %s' % (name, fault or '-'))
             else:
                 flavor = op[5] if len(op) > 5 and op[5] else 'RuntimeError'
                 if rpc:
-                    ops.append('rpcremove %s %d %s %s' % (name, 1 if op[2] else 0, op[3] or '-', flavor if op[3] else '-'))
+                    ops.append('rpcremove %s %d %s %s' % (name, 1 if op[2] else 0, op[3] or '-', mro_names(flavor) if op[3] else '-'))
                 else:
                     ops.append('remove %s %d %s' % (name, 1 if op[2] else 0, op[3] or '-'))
             if res.startswith('fault:') or res.startswith('raised:'):
@@ -241,7 +254,6 @@ def group_history(ctx, hist, tag=''):
 
 GROUP_OPS = [['add', n, f, None, None] for n in 'ab' for f in (None, 'after_setuid', 'make_group')] + \
             [['remove', n, u, f, None, None] for n in 'ab' for (u, f) in ((False, None), (True, None), (False, 'before_remove'))]
-FLAVORS = ['ValueError', 'RuntimeError']
 
 GROUP_CORPUS = [
     # C11-3's story on the FastCGI group: the socket cannot be bound, the addition fails; the operator retries
@@ -252,8 +264,8 @@ GROUP_CORPUS = [
     # a failed addition through the RPC method: a ValueError is answered as a fault, another exception escapes; either way nothing is
     # announced and the retry announces once (F48)
     [['add', 'a', 'make_group', 'rpc', 'ValueError'], ['add', 'a', 'make_group', 'rpc', 'RuntimeError'], ['add', 'a', 'after_setuid', 'rpc', 'ValueError'],
-     ['add', 'a', 'after_setuid', 'rpc', 'RuntimeError'], ['add', 'a', 'make_group', 'direct', 'ValueError'], ['add', 'a', None, 'rpc'], ['add', 'a', None, 'rpc'],
-     ['remove', 'a', True, None, 'rpc'], ['remove', 'a', False, 'before_remove', 'rpc', 'ValueError'], ['remove', 'a', False, 'before_remove', 'rpc', 'RuntimeError'],
+     ['add', 'a', 'after_setuid', 'rpc', 'RuntimeError'], ['add', 'a', 'after_setuid', 'rpc', 'FileNotFoundError'], ['add', 'a', 'make_group', 'rpc', 'FileNotFoundError'], ['add', 'a', 'make_group', 'direct', 'ValueError'], ['add', 'a', None, 'rpc'], ['add', 'a', None, 'rpc'],
+     ['remove', 'a', True, None, 'rpc'], ['remove', 'a', False, 'before_remove', 'rpc', 'ValueError'], ['remove', 'a', False, 'before_remove', 'rpc', 'RuntimeError'], ['remove', 'a', False, 'before_remove', 'rpc', 'FileNotFoundError'],
      ['remove', 'a', False, None, 'rpc']],
 ]
 
